@@ -7,7 +7,7 @@ EXTENDS BehaviorStack, Json
 Trace == ndJsonDeserialize("trace.ndjson")
 VARIABLE l
 Matches(e) == stack' = e.stk /\ len' = e.len /\ last'.h = e.h
-TNew == /\ stack' = <<Default>> /\ len' = 1 /\ ideal' = <<Default>> /\ cur' = "none" /\ nops' = 0
+TNew == /\ stack' = <<Default>> /\ len' = 1 /\ ideal' = <<Default>> /\ cur' = "none" /\ nops' = 0 /\ nres' = 0
         /\ last' = [op |-> "Init", b |-> "", h |-> "none"]
 TStep ==
   /\ l <= Len(Trace)
@@ -20,6 +20,7 @@ TStep ==
      \/ e.op = "BecomeStacked" /\ BecomeStacked(e.b) /\ Matches(e)
      \/ e.op = "UnBecomeStacked" /\ UnBecomeStacked /\ Matches(e)
      \/ e.op = "UnBecome" /\ UnBecome /\ Matches(e)
+     \/ e.op = "Restart" /\ Restart /\ Matches(e)
 TInit == Init /\ l = 1
 TSpec == TInit /\ [][TStep]_<<vars, l>>
 ====
